@@ -19,6 +19,7 @@ pub fn def() -> PropDef {
         panic_is_violation: false,
         rule: "run = seeded gossip-only history (no actor reuse) with reordering, loss, duplication, out-of-causal-order subsets, load_incremental streams and restarts with/without retained orphans; the harness tracks the delivered set D per replica, A = greatest dep-closed subset of D; after every delivery heads = max(A), applied set = A, state = R1(A), get_missing_deps = model; non-trivial = at least one change was held for >= 1 event; distinct by digest of the (held, released) sequence",
         custom: None,
+        abort_prone: false,
         probes: &["probe.held_then_released", "probe.held_chain_ge3", "probe.missing_deps_nonempty", "probe.restart_with_orphans", "probe.restart_dropped_orphans"],
         fault_kinds: &["fault.reorder", "fault.dup", "fault.loss", "fault.crash.clean"],
     }
